@@ -66,9 +66,14 @@ static inline void *vp_exact(uint64_t bytes) {
 #define VP_BUF_HELPERS(PFX, BUF_T, ELEM_T, L, MAXS)                                              \
   /* heap: 1 = heap storage only (size >= L), 0 = in-object only, -1 = both (symbolic); a fixed mode keeps every data     \
    * pointer single-target, which makes nested scanning loops several times cheaper */                                \
+  static void PFX##_mk_n(BUF_T *b, ELEM_T *shadow, int heap, uint64_t n);                        \
   static void PFX##_mk_mode(BUF_T *b, ELEM_T *shadow, int heap) {                                \
     uint64_t n = vp_in_u64();                                                                    \
     ASSUME(n <= (MAXS));                                                                         \
+    PFX##_mk_n(b, shadow, heap, n);                                                              \
+  }                                                                                              \
+  /* size given by the caller: with a CONCRETE n every index, loop bound and the storage mode are concrete */       \
+  static void PFX##_mk_n(BUF_T *b, ELEM_T *shadow, int heap, uint64_t n) {                       \
     b->f1 = n;                                                                                   \
     /* in-object array: arbitrary bytes (stale data is allowed by Inv) */                        \
     for (int i = 0; i < (L); i++) b->f2.a[i] = (ELEM_T)vp_in_u8();                               \
